@@ -147,3 +147,8 @@ Definition drv_capchecks (t : ty) (cap_bytes : nat) : option bool * option bool 
 Definition comp_fields (t : ty) : list ty := match t with TComp _ fs _ => fs | _ => [] end.
 Definition is_array (t : ty) : bool := match t with TFix _ _ | TVar _ _ => true | _ => false end.
 Definition is_union (t : ty) : bool := match t with TComp true _ _ => true | _ => false end.
+
+(* finding F-FLOAT-LIT-RANGE: both operands of the rendered floating constant expression must be floating constants within the
+   range of double; false = the expression contains an out-of-range floating constant *)
+Definition const_float_operands_in_range (n d : Z) : bool :=
+  match const_float_rational n d with Some (a, b) => negb (float_lit_overflows a b) | None => false end.
